@@ -95,7 +95,7 @@ CLAIMED = {
     "C03": (
         "proof",
         "Coq proofs on the block model (thematic break rule, line scanner) + whole-pipeline differential correspondence incl. maps + source-map predicate on implementation streams",
-        "Theorems: for EVERY source the line tables of a fresh StateBlock are five lists of length lineMax+1 whose rows satisfy 0 <= bMarks <= bMarks+tShift <= eMarks <= len(src) and 0 <= sCount - the ranges every map and content slice is computed from (C03_line_tables_well_formed); the thematic break rule maps exactly its own line and advances by one (C03_hr_map); the line scanner is a left fold that splits at any point (C03_line_scan_splits). The general map law (maps lie inside the document, children nest inside parents, siblings are ordered and disjoint, each block's map covers exactly its lines) is decided each run on the implementation by the map predicate over the syntax tree for ~2000 (quick) generated documents in random configurations, while the correspondence ties every map the model computes to the implementation's.",
+        "Theorems: for EVERY source the line tables of a fresh StateBlock are five lists of length lineMax+1 whose rows satisfy 0 <= bMarks <= bMarks+tShift <= eMarks <= len(src) and 0 <= sCount - the ranges every map and content slice is computed from (C03_line_tables_well_formed); for EVERY state each leaf rule (code, fence, hr, heading, html_block, paragraph, lheading), when it succeeds, moves the line cursor strictly past its start line and not beyond the end line it was given (the paragraph: lineMax), and every token it appends carries a map [b, e) with startLine <= b < e <= new line (C03_code_maps ... C03_lheading_maps; the paragraph / lheading theorems for any terminator callback that leaves the token list alone); the thematic break rule maps exactly its own line (C03_hr_map); the line scanner is a left fold that splits at any point (C03_line_scan_splits). Containers, tables, definitions and the nesting / ordering / coverage clauses are not theorems. The general map law (maps lie inside the document, children nest inside parents, siblings are ordered and disjoint, each block's map covers exactly its lines) is decided each run on the implementation by the map predicate over the syntax tree for ~2000 (quick) generated documents in random configurations, while the correspondence ties every map the model computes to the implementation's.",
         "Trusted: Coq kernel; block model tied by sampled correspondence; general map law by exploration (partial).",
         "DESIGN.md §3 C03",
     ),
